@@ -9,7 +9,7 @@
 //      CompositeAdjactor, of DynamicGraph (+compose)
 //   C  all permutations of length 1..5 (thorough ..7) through every ConstrType, apply (in-place, out-of-place,
 //      inverted or not, type converting), inverse, clone, move, concat of all pairs; the empty permutation
-//   D  all symmetric graphs (n <= 5) with several loop masks and both list orders: Coloring without and with
+//   D  all symmetric graphs (n <= 5) with several loop masks and three list orders (ascending, descending, scrambled): Coloring without and with
 //      every order array, partition graph, array/vector constructors; CuthillMcKee::compute for every
 //      root x sort x reverse option (bijection + an independent level-structure reference); all directed
 //      graphs n <= 3 (thorough 4) for CuthillMcKee
@@ -329,14 +329,14 @@ namespace
   }
 
   // symmetric graph on n nodes from an edge mask over pairs (i<j) and a loop mask
-  Rel sym_graph(Index n, unsigned emask, unsigned lmask, bool descending)
+  Rel sym_graph(Index n, unsigned emask, unsigned lmask, int order) // order: 0 ascending, 1 descending, 2 scrambled (rotated by one)
   {
     Rel r; r.nd = r.ni = n; r.l.assign(n, IV());
     unsigned b = 0;
     std::vector<std::set<Index>> s(n);
     for(Index i = 0; i < n; ++i) for(Index j = i + 1; j < n; ++j, ++b) if(emask & (1u << b)) { s[i].insert(j); s[j].insert(i); }
     for(Index i = 0; i < n; ++i) if(lmask & (1u << i)) s[i].insert(i);
-    for(Index i = 0; i < n; ++i) { r.l[i].assign(s[i].begin(), s[i].end()); if(descending) std::reverse(r.l[i].begin(), r.l[i].end()); }
+    for(Index i = 0; i < n; ++i) { r.l[i].assign(s[i].begin(), s[i].end()); if(order == 1) std::reverse(r.l[i].begin(), r.l[i].end()); if(order == 2 && r.l[i].size() > 1) std::rotate(r.l[i].begin(), r.l[i].begin() + 1 + (i % (r.l[i].size() - 1)), r.l[i].end()); }
     return r;
   }
   Rel dir_graph(Index n, unsigned mask)
@@ -357,10 +357,12 @@ namespace
   const char* KEY_COMPOSITE_ADJ = "composite-adjactor: first image node of a domain node has an empty second adjacency list";
   const char* KEY_CMK_MAXDEG = "cmk.maximum_degree root with a degree-0 node: no root found (abort)";
   const char* KEY_CMK_MULTI = "cmk: several components, a non-last component ends with a level of >= 2 nodes (root of the next component overwrites a position)";
+  const char* KEY_SELF_CONCAT = "permutation.concat with itself (p.concat(p)) reads entries it has already overwritten: result is not p o p (not even a permutation)";
+  const char* KEY_SELF_COMPOSE = "dynamic_graph.compose with itself (g.compose(g)) clears each row before reading it through the argument: result is not g o g";
   const char* KEY_PERMUTE_IDX = "graph.permute_indices asserts num_indices == perm size instead of num_nodes_image";
   const char* KEY_EMPTY_PERM_INV = "permutation: in-place inverse apply of the empty permutation runs out of bounds";
 
-  struct Hazards { int sorted_empty, composite_adj, cmk_maxdeg, cmk_multi, permute_idx, empty_perm_inv; };
+  struct Hazards { int sorted_empty, composite_adj, cmk_maxdeg, cmk_multi, permute_idx, empty_perm_inv, self_concat, self_compose; };
 
   // --------------------------------------------------------------------------------------------- part A
   void check_single(verif::Ctx& c, const Rel& r, const Hazards& hz)
@@ -407,6 +409,40 @@ namespace
       c.check(read_graph(ma, got, err) && got == r, "graph.move-assign", [&]{ return err + str(got); });
       ma = std::move(ma);
       c.check(read_graph(ma, got, err) && got == r, "graph.self-move-assign", [&]{ return err + str(got); });
+      // derived objects: the complete render set from the clone->moved->move-assigned graph and from a deserialised one
+      Graph de(g.serialize());
+      for(RenderType rt : all_rt)
+      {
+        if((rt == RenderType::as_is_sorted || rt == RenderType::injectify_sorted) && nidx == 0 && hz.sorted_empty != 0) continue;
+        const Rel ref = ref_render(rt, r);
+        Graph h1(rt, ma); Graph h2(rt, de);
+        Rel g1, g2;
+        c.check(read_graph(h1, g1, err) && g1 == ref && read_graph(h2, g2, err) && g2 == ref, std::string("graph.render from derived (moved/deserialised) graph ") + rt_name(rt), [&]{ return err + str(g1) + str(g2); });
+      }
+      // same object as both factors of a composite render (square relations)
+      if(r.nd == r.ni)
+      {
+        const Rel comp = ref_compose(r, r);
+        for(RenderType rt : {RenderType::as_is, RenderType::injectify, RenderType::transpose, RenderType::injectify_transpose})
+        {
+          Graph h(rt, g, g); Rel got2;
+          c.check(read_graph(h, got2, err) && got2 == ref_render(rt, comp), std::string("graph.render.composite of a graph with itself ") + rt_name(rt), [&]{ return err + str(got2); });
+        }
+        // unusual overloads: mixed adjactor types in one composite render
+        DynamicGraph dg(RenderType::as_is, g);
+        const Rel rs = as_sets(r);
+        Graph hm(RenderType::injectify_sorted, dg, g); Rel gm;
+        c.check(read_graph(hm, gm, err) && gm == ref_render(RenderType::injectify_sorted, ref_compose(rs, r)), "graph.render.composite DynamicGraph x Graph", [&]{ return err + str(gm); });
+        Graph hm2(RenderType::transpose, g, dg);
+        c.check(read_graph(hm2, gm, err) && gm == ref_render(RenderType::transpose, ref_compose(r, rs)), "graph.render.composite Graph x DynamicGraph", [&]{ return err + str(gm); });
+      }
+      // re-invocation: sort_indices twice, permutation constructor with the same permutation object for both sets
+      if(nidx > 0 || hz.sorted_empty == 0)
+      {
+        Graph s2 = g.clone(); s2.sort_indices(); s2.sort_indices();
+        Rel want = r; for(auto& x : want.l) std::sort(x.begin(), x.end());
+        c.check(read_graph(s2, got, err) && got == want, "graph.sort_indices twice", [&]{ return err + str(got); });
+      }
     }
     // sort_indices keeps every adjacency list as a multiset
     if(nidx > 0 || hz.sorted_empty == 0)
@@ -581,7 +617,7 @@ namespace
   }
   std::string op_str(const DynOp& o)
   {
-    static const char* nm[] = {"insert", "erase", "clear", "clone-move", "compose"};
+    static const char* nm[] = {"insert", "erase", "clear", "clone-move", "compose", "compose-with-itself"};
     std::string s = nm[o.kind];
     if(o.kind < 2) s += "(" + std::to_string(o.i) + "," + std::to_string(o.j) + ")";
     return s;
@@ -596,7 +632,7 @@ int main(int argc, char** argv)
     "looping over every second relation R2; (C) one per permutation; (D) one per (symmetric or directed) graph; (E) one per CSR pattern; (F) one BFS per DynamicGraph start "
     "configuration. Non-trivial: relation (pair) with >= 1 (composed) adjacency, permutation != identity of length >= 2, graph with >= 1 edge; hashed by the input lists/arrays.";
   spec.bounds_quick = "A: nd,ni<=3, lists<=2 (2197 relations for 3x3), all 8 render types, all S_nd x S_ni; B: R1 nd<=2, nm<=3, R2 ni<=3, lists<=2; C: length<=5, concat length<=4; "
-    "D: all symmetric graphs n<=5 (loop masks: all for n<=3, {none,all,even} else), both list orders, all n! colouring orders, 18 CMK options; directed graphs n<=3; E: patterns<=3x3 with all S_m x S_n; F: depth<=4 on <=3x3";
+    "D: all symmetric graphs n<=5 (loop masks: all for n<=3, {none,all,even} else), three list orders (ascending, descending, scrambled), all n! colouring orders, 18 CMK options; directed graphs n<=3; E: patterns<=3x3 with all S_m x S_n; F: depth<=4 on <=3x3";
   spec.bounds_thorough = "A: as quick plus lists<=3 for nd,ni<=2 ... ; B: R1 nd<=3; C: length<=7, concat length<=5; D: all loop masks n<=5, symmetric loop-free n=6 (colouring orders: all 720), directed n<=4; E: as quick; F: full closure (depth<=9) on <=3x3";
   spec.assumptions = {
     "reference = list/set based definitions written in the harness (render types, composition, permutation as bijection y[i]=x[P(i)], level-structure Cuthill-McKee with stable degree sort)",
@@ -648,6 +684,20 @@ int main(int argc, char** argv)
       P.apply(x, true);
       return x[0] == 42; });
 
+    hz.self_concat = probe([]{
+      Index v[3] = {1, 2, 0};
+      Permutation P(3, Permutation::ConstrType::perm, v);
+      P.concat(P);
+      return P.get_perm_pos()[0] == 2 && P.get_perm_pos()[1] == 0 && P.get_perm_pos()[2] == 1; });
+    hz.self_compose = probe([]{
+      // 0 -> {0}: g o g = g
+      DynamicGraph d(1, 1); d.insert(0, 0);
+      d.compose(d);
+      return d.get_num_indices() == 1 && d.exists(0, 0); });
+    if(c.want()) { c.desc([]{ return std::string("probe: Permutation p = [1,2,0]; p.concat(p)"); });
+      c.check(hz.self_concat == 0, KEY_SELF_CONCAT, [&]{ return std::string(probe_txt(hz.self_concat)); }); }
+    if(c.want()) { c.desc([]{ return std::string("probe: DynamicGraph 1x1 {0->0}; g.compose(g)"); });
+      c.check(hz.self_compose == 0, KEY_SELF_COMPOSE, [&]{ return std::string(probe_txt(hz.self_compose)); }); }
     if(c.want()) { c.desc([]{ return std::string("probe: Graph(injectify_sorted, 1x1 graph without adjacencies)"); });
       c.check(hz.sorted_empty == 0, KEY_SORTED_EMPTY, [&]{ return std::string(probe_txt(hz.sorted_empty)); }); }
     if(c.want()) { c.desc([]{ return std::string("probe: CompositeAdjactor R1=1x2{[0,1]} R2=2x1{[] [0]} iterated through image_begin/image_end"); });
@@ -706,6 +756,7 @@ int main(int argc, char** argv)
           const std::vector<IV> lists2 = all_lists(ni, 2);
           Graph g1 = make_graph(r1, false);
           for_each_rel(nm, ni, lists2, [&](const Rel& r2) { check_pair(c, r1, g1, r2, hz); });
+          c.heartbeat();
           c.outcome("pairs");
         }
       });
@@ -787,6 +838,19 @@ int main(int argc, char** argv)
             Permutation P3(n, Permutation::ConstrType::swap, P2.get_swap_pos());
             c.check(perm_consistent(P3, ps, err), "permutation.calc_swap_from_perm;calc_perm_from_swap", [&]{ return err; });
           }
+          // aliasing: p.concat(p) = p o p; concat applied twice on the same object; concat after the swap array went stale
+          if(hz.self_concat == 0)
+          {
+            Permutation P(n, Permutation::ConstrType::perm, p.data());
+            P.concat(P);
+            IV want(n); for(Index i = 0; i < n; ++i) want[i] = p[p[i]];
+            c.check(perm_consistent(P, want, err), "permutation.concat with itself", [&]{ return err; });
+            Permutation Q(n, Permutation::ConstrType::perm, p.data());
+            P.concat(Q); // (p o p) then p
+            for(Index i = 0; i < n; ++i) want[i] = p[want[i]];
+            c.check(perm_consistent(P, want, err), "permutation.concat re-invoked on the same object", [&]{ return err; });
+          }
+          else c.excluded("p.concat(p) (reported once as finding)");
           if(pi == 0)
           {
             Permutation Id(n, Permutation::ConstrType::identity);
@@ -836,10 +900,11 @@ int main(int argc, char** argv)
         else if(n == 6) { lmasks = {0u}; }
         else { lmasks = {0u, (1u << n) - 1u, 0x15u & ((1u << n) - 1u)}; }
         const std::vector<IV> orders = all_perms(n);
-        for(unsigned em = 0; em < (1u << ne); ++em) for(unsigned lm : lmasks) for(int desc = 0; desc < 2; ++desc)
+        for(unsigned em = 0; em < (1u << ne); ++em) for(unsigned lm : lmasks) for(int desc = 0; desc < 3; ++desc)
         {
           if(!c.want()) continue;
-          const Rel g = sym_graph(n, em, lm, desc != 0);
+          const Rel g = sym_graph(n, em, lm, desc);
+          c.heartbeat();
           c.desc([&]{ return "D symmetric graph " + str(g); });
           Graph gr = make_graph(g, false);
           {
@@ -980,6 +1045,8 @@ int main(int argc, char** argv)
       std::vector<DynOp> ops;
       for(Index i = 0; i < nd; ++i) for(Index j = 0; j < ni; ++j) { ops.push_back({0, i, j}); ops.push_back({1, i, j}); }
       ops.push_back({2, 0, 0}); ops.push_back({3, 0, 0}); ops.push_back({4, 0, 0});
+      if(nd == ni && hz.self_compose == 0) ops.push_back({5, 0, 0});
+      else if(nd == ni) c.excluded("g.compose(g) (reported once as finding)");
       const Rel shift = shift_rel(ni);
       const Graph gshift = make_graph(shift, false);
       Rel startrel; startrel.nd = nd; startrel.ni = ni; startrel.l.assign(nd, IV());
@@ -1003,6 +1070,7 @@ int main(int argc, char** argv)
             case 1: { bool r = d.erase(o.i, o.j); bool m = model.erase({o.i, o.j}) > 0; if(validate) c.check(r == m, "dynamic_graph.erase return value", [&]{ return op_str(o); }); break; }
             case 2: d.clear(); model.clear(); break;
             case 3: { DynamicGraph e = d.clone(); DynamicGraph f(nd, ni); f.insert(0, 0); f = std::move(e); d = std::move(f); break; }
+            case 5: { d.compose(d); PairSet nm; for(auto& pr : model) for(auto& qr : model) if(qr.first == pr.second) nm.insert({pr.first, qr.second}); model.swap(nm); break; }
             case 4: { d.compose(gshift); PairSet nm; for(auto& pr : model) for(Index k : shift.l[pr.second]) nm.insert({pr.first, k}); model.swap(nm); break; }
             }
           }
